@@ -85,7 +85,7 @@ INJECTORS = ["FeatureSwapInjector", "FeatureShiftInjector", "FeatureCoverInjecto
 
 def cases(tier, seed):
     out = []
-    reps = 8 if tier == "quick" else 60
+    reps = 8 if tier == "quick" else 250
     for name in INJECTORS:
         for cont in ("ndarray", "DataFrame"):
             for r in range(reps):
@@ -93,7 +93,7 @@ def cases(tier, seed):
     for name in INJECTORS:
         for r in range(reps * 2):
             out.append({"id": "reuse/%s/%d" % (name, r), "kind": "reuse", "inj": name, "cont": "both", "seed": [seed, 2000, r], "cost": 0.5})
-    nr = 100 if tier == "quick" else 900
+    nr = 100 if tier == "quick" else 4000
     for name in INJECTORS:
         for cont in ("ndarray", "DataFrame"):
             for r in range(nr):
